@@ -20,7 +20,7 @@ PROPS = {
                  "(A) / a write overlapped another client's operation (S); distinct by the full case including the schedule."),
         "assumptions": ["in-process instances replicate the runGateway wiring; goroutine identity = request identity (fasthttp serves a connection on the calling goroutine)"],
         "jobs": [
-            {"run": "TestC05A", "quick": 4000, "thorough": 400000, "shards_quick": 8, "shards_thorough": 16, "disk_shards": 4},
+            {"run": "TestC05A", "quick": 16000, "thorough": 400000, "shards_quick": 8, "shards_thorough": 16, "disk_shards": 4},
             {"run": "TestC05S", "quick": 240, "thorough": 12000, "shards_quick": 4, "shards_thorough": 8},
         ],
     },
